@@ -69,6 +69,14 @@ func c38new() *classic.Interp {
 		}
 		c38trace = append(c38trace, fmt.Sprintf("%d:%d", tag, v))
 	})
+	// g(tag, v): a case expression with an observable side effect (C05's `Guard.eff`)
+	def("g", func(tag, v int) int {
+		if len(c38trace) >= c38budget {
+			panic("emit budget exceeded")
+		}
+		c38trace = append(c38trace, fmt.Sprintf("%d:%d", tag, v))
+		return v
+	})
 	def("lg", func(s string) {
 		if len(c38log) >= c38budget {
 			panic("log budget exceeded")
@@ -571,7 +579,12 @@ func c38modelledT(toks []string) bool {
 }
 
 func c38runT(body []*c38node, hint uint64) string {
+	// even hints: a FRESH interpreter, whose call stack (a slice of frames) is reallocated while the tree
+	// runs; odd hints: the shared one, whose call stack has already grown
 	ir := c38interp()
+	if hint%2 == 0 {
+		ir = c38new()
+	}
 	c38seq++
 	pfx := fmt.Sprintf("t%d_", c38seq)
 	decls, root := c38sourceT(body, hint, pfx)
@@ -663,6 +676,13 @@ func G_main() int { r := 0; func() { defer func() { if G_h() == nil { r += 1 }; 
 	{"recover-runtime-error", `func G_main() int { r := 0; func() { defer func() { if e := recover(); e != nil { r = 7 } }(); var m map[string]int; m["a"] = 1 }(); func() { defer func() { if recover() != nil { r += 10 } }(); s := []int{1}; i := 3; r += s[i] }(); return r }`, "G_main()"},
 	{"labelled-break-continue", `func G_main() int { r := 0; outer: for i := 0; i < 4; i++ { for j := 0; j < 4; j++ { if j == 2 { continue outer }; if i == 3 { break outer }; r += i*10 + j } }; return r }`, "G_main()"},
 	{"labelled-break-out-of-switch-in-for", `func G_main() int { r := 0; L: for i := 0; i < 5; i++ { switch i { case 2: break L; default: r += i + 1 } }; return r }`, "G_main()"},
+	{"range-append-in-body", `func G_main() int { s := []int{1, 2, 3}; n := 0; for i := range s { if len(s) < 6 { s = append(s, i) }; n++ }; t := []int{5}; for i, v := range t { if len(t) < 4 { t = append(t, v+i) }; n += 10 }; return n*100 + len(s)*10 + len(t) }`, "G_main()"},
+	{"range-slice-elem-written-in-body", `func G_main() int { s := []int{1, 2, 3}; n := 0; for i, v := range s { s[2] = 70; n = n*10 + v + i }; return n }`, "G_main()"},
+	{"range-var-shrunk-in-body", `func G_main() int { s := []int{1, 2, 3}; n := 0; for _, v := range s { s = s[:1]; n += v }; return n*10 + len(s) }`, "G_main()"},
+	{"range-var-replaced-in-body", `func G_main() int { s := []int{1, 2, 3}; n := 0; for i, v := range s { s = []int{9, 9, 9}; n = n*10 + v + i }; m := map[string]int{"a": 1}; k := 0; for key := range m { m = map[string]int{"b": 2, "c": 3}; k += len(key) }; return n*10 + k }`, "G_main()"},
+	{"range-array-copied", `func G_main() int { a := [3]int{1, 2, 3}; n := 0; for i, v := range a { a[2] = 50; n = n*10 + v + i }; p := &a; for i, v := range p { p[2] = 60; n = n*10 + v + i }; return n }`, "G_main()"},
+	{"defer-panics-on-fresh-stack", `func G_in() int { defer func() { panic("second") }(); return 1 }
+func G_main() int { r := 0; func() { defer func() { lg("got:" + show(recover())) }(); r = G_in() }(); return r }`, "G_main()"},
 	{"shift-variable-counts", `func G_main() int { x := 1; n := 3; u := uint(70); a := x << n; b := -64 >> n; c := x << u; d := -1 >> u; return a*1000 + b*10 + c + d }`, "G_main()"},
 }
 
@@ -685,6 +705,8 @@ func c38gKey(g *c38g) string {
 		return "compare-concrete-value-with-nil"
 	case strings.HasPrefix(g.name, "recover-") && !c38has("k1"):
 		return "recover-stale-frame"
+	case g.name == "range-var-shrunk-in-body" || g.name == "range-var-replaced-in-body" || g.name == "range-array-copied":
+		return "range-expression-not-evaluated-once"
 	}
 	return "program-differs-" + g.name
 }
@@ -771,7 +793,7 @@ func c38prepare(ops []string) {
 			j = len(progs)
 		}
 		var decls, body strings.Builder
-		decls.WriteString("var emitF func(int, int)\nfunc emit(tag, v int) { emitF(tag, v) }\n")
+		decls.WriteString("var emitF func(int, int)\nfunc emit(tag, v int) { emitF(tag, v) }\nfunc g(tag, v int) int { emitF(tag, v); return v }\n")
 		body.WriteString("var tr []string\nemitF = func(tag, v int) { if len(tr) >= 4000 { panic(\"emit budget exceeded\") }; tr = append(tr, fmt.Sprintf(\"%d:%d\", tag, v)) }\n")
 		var own []string
 		for k, op := range progs[i:j] {
@@ -1151,6 +1173,10 @@ func c38genOps(r *rand.Rand, tier string, emit func(string)) {
 	for _, p := range c05systematic() {
 		emit("prog ? 20000 " + p)
 	}
+	// case lists mixing constants and side-effecting expressions in all orders, default in every position
+	for _, p := range c05switchFamily() {
+		emit("prog ? 20000 " + p)
+	}
 	n := 700
 	if tier == "thorough" {
 		n = 20000
@@ -1226,6 +1252,10 @@ var c38scenarios = []string{
 	"r D( r ) r",
 	"p32",
 	"D( p34 ) e1",
+	"D( p6 ) p4",
+	"D( r ) D( p6 ) e1",
+	"C( D( p6 ) e1 ) e2",
+	"D( r ) C( D( p8 ) p4 ) e2",
 	"D( r ) D( r p36 ) p38",
 }
 
